@@ -1,2 +1,1097 @@
+//! C06: grouped aggregation is exact under every aggregation strategy.
+//! Three streams, one JSON object per line:
+//!  * "ord":    operation histories on the REAL `GroupOrderingPartial` / `GroupOrderingFull` (new_groups, emit_to,
+//!              remove_groups, input_done, reset, oom_emit_to); the state after every operation is read from the
+//!              struct's Debug output; panics are data.  Most histories follow the protocol of the ordered aggregate
+//!              table over an input that is sorted on the ordering columns (then "ok" = no emitted group receives a
+//!              later row, input_done makes everything emittable, no panic), some are adversarial.
+//!  * "agg":    the REAL `AggregateExec` in every mode (Single, Partial->Final, Partial->Repartition->FinalPartitioned,
+//!              SinglePartitioned, Partial->SortPreservingMerge->Final) x declared input ordering x batch sizes x
+//!              memory budgets (spill / early emission under pressure) x skip-partial thresholds x key types x
+//!              GROUPING SETS; "ok" = every run's output bag equals the definition computed here.
+//!  * "stream": single-stage aggregation over a declared-sorted input without memory limit: the exact sequence of
+//!              output batches (early emission), for the state-machine tie.
+use std::cmp::Ordering;
+use std::collections::BTreeMap;
+use std::panic::{catch_unwind, AssertUnwindSafe};
+use std::sync::Arc;
+
+use arrow::array::{Array, ArrayRef, Float64Array, Int64Array, RecordBatch, StringArray};
+use arrow::compute::SortOptions;
+use arrow::datatypes::{DataType, Field, Schema, SchemaRef};
+use datafusion_common::ScalarValue;
+use datafusion_execution::config::SessionConfig;
+use datafusion_execution::memory_pool::FairSpillPool;
+use datafusion_execution::runtime_env::RuntimeEnvBuilder;
+use datafusion_execution::TaskContext;
+use datafusion_expr::EmitTo;
+use datafusion_functions_aggregate::average::avg_udaf;
 use datafusion_functions_aggregate::count::count_udaf;
-fn main() { let _ = count_udaf(); }
+use datafusion_functions_aggregate::min_max::{max_udaf, min_udaf};
+use datafusion_functions_aggregate::sum::sum_udaf;
+use datafusion_physical_expr::aggregate::{AggregateExprBuilder, AggregateFunctionExpr};
+use datafusion_physical_expr::expressions::{col, lit, Column};
+use datafusion_physical_expr::{LexOrdering, PhysicalExpr, PhysicalSortExpr};
+use datafusion_physical_plan::aggregates::order::{GroupOrdering, GroupOrderingFull, GroupOrderingPartial};
+use datafusion_physical_plan::aggregates::{AggregateExec, AggregateMode, PhysicalGroupBy};
+use datafusion_physical_plan::coalesce_partitions::CoalescePartitionsExec;
+use datafusion_physical_plan::repartition::RepartitionExec;
+use datafusion_physical_plan::sorts::sort_preserving_merge::SortPreservingMergeExec;
+use datafusion_physical_plan::test::TestMemoryExec;
+use datafusion_physical_plan::{collect, ExecutionPlan, InputOrderMode, Partitioning};
+use h_util::{arg, json_str, Rng};
+
+// ------------------------------------------------------------------ values
+#[derive(Clone, Debug, PartialEq, Eq, PartialOrd, Ord, Hash)]
+enum V {
+    Null,
+    I(i64),
+    S(String),
+}
+fn vj(v: &V) -> String {
+    match v {
+        V::Null => "null".into(),
+        V::I(i) => i.to_string(),
+        V::S(s) => json_str(s),
+    }
+}
+fn rowj(r: &[V]) -> String {
+    format!("[{}]", r.iter().map(vj).collect::<Vec<_>>().join(","))
+}
+fn rowsj(rs: &[Vec<V>]) -> String {
+    format!("[{}]", rs.iter().map(|r| rowj(r)).collect::<Vec<_>>().join(","))
+}
+fn panic_msg(e: Box<dyn std::any::Any + Send>) -> String {
+    if let Some(s) = e.downcast_ref::<String>() {
+        s.clone()
+    } else if let Some(s) = e.downcast_ref::<&str>() {
+        s.to_string()
+    } else {
+        "panic".into()
+    }
+}
+fn int_col(vs: &[V]) -> ArrayRef {
+    Arc::new(vs.iter().map(|v| if let V::I(i) = v { Some(*i) } else { None }).collect::<Int64Array>())
+}
+fn str_col(vs: &[V]) -> ArrayRef {
+    Arc::new(vs.iter().map(|v| if let V::S(s) = v { Some(s.clone()) } else { None }).collect::<StringArray>())
+}
+
+// ================================================================== stream "ord"
+#[derive(Clone, Debug)]
+enum Op {
+    New(Vec<Vec<V>>, Vec<usize>, usize),
+    Emit,
+    Remove(usize),
+    Done,
+    Reset,
+    Oom(usize),
+}
+fn opj(o: &Op) -> String {
+    match o {
+        Op::New(k, g, t) => format!(
+            "{{\"op\":\"new\",\"keys\":{},\"gidx\":[{}],\"total\":{}}}",
+            rowsj(k),
+            g.iter().map(|x| x.to_string()).collect::<Vec<_>>().join(","),
+            t
+        ),
+        Op::Emit => "{\"op\":\"emit\"}".into(),
+        Op::Remove(n) => format!("{{\"op\":\"remove\",\"n\":{}}}", n),
+        Op::Done => "{\"op\":\"done\"}".into(),
+        Op::Reset => "{\"op\":\"reset\"}".into(),
+        Op::Oom(n) => format!("{{\"op\":\"oom\",\"n\":{}}}", n),
+    }
+}
+/// (tag, current_sort, current, sort_key) from the Debug output
+fn parse_state(dbg: &str) -> (i64, i64, i64, Vec<V>) {
+    let num_after = |pat: &str| -> i64 {
+        match dbg.find(pat) {
+            Some(i) => {
+                let t: String = dbg[i + pat.len()..].chars().take_while(|c| c.is_ascii_digit()).collect();
+                t.parse().unwrap_or(-7)
+            }
+            None => -1,
+        }
+    };
+    if dbg.contains("state: Start") {
+        (0, -1, -1, vec![])
+    } else if dbg.contains("state: Complete") {
+        (2, -1, -1, vec![])
+    } else if dbg.contains("state: Taken") {
+        (3, -1, -1, vec![])
+    } else if dbg.contains("InProgress") {
+        let cs = num_after("current_sort: ");
+        let cur = if dbg.contains(", current: ") { num_after(", current: ") } else { num_after("{ current: ") };
+        let mut sk = vec![];
+        if let Some(i) = dbg.find("sort_key: [") {
+            let rest = &dbg[i + "sort_key: [".len()..];
+            let end = rest.find(']').unwrap_or(0);
+            for item in rest[..end].split(", ") {
+                let item = item.trim();
+                if item.is_empty() {
+                    continue;
+                }
+                if let Some(x) = item.strip_prefix("Int64(") {
+                    let x = x.trim_end_matches(')');
+                    if x == "NULL" {
+                        sk.push(V::Null)
+                    } else {
+                        sk.push(x.parse::<i64>().map(V::I).unwrap_or(V::S(item.to_string())))
+                    }
+                } else {
+                    sk.push(V::S(item.to_string()))
+                }
+            }
+        }
+        (1, cs, cur, sk)
+    } else {
+        (9, -1, -1, vec![])
+    }
+}
+fn emit_code(e: Option<EmitTo>) -> i64 {
+    match e {
+        None => -1,
+        Some(EmitTo::All) => -2,
+        Some(EmitTo::First(n)) => n as i64,
+    }
+}
+
+fn ord_case(rng: &mut Rng, id: u64) {
+    let full = rng.chance(1, 3);
+    let ncols = if full { rng.range(1, 2) as usize } else { rng.range(1, 3) as usize };
+    // ordering columns: non-empty list of distinct columns (any permutation)
+    let mut idx: Vec<usize> = vec![];
+    if !full {
+        let mut cols: Vec<usize> = (0..ncols).collect();
+        let n = rng.range(1, ncols as i64) as usize;
+        for _ in 0..n {
+            let j = rng.below(cols.len() as u64) as usize;
+            idx.push(cols.remove(j));
+        }
+    }
+    let sk_of = |k: &Vec<V>| -> Vec<V> {
+        if full {
+            k.clone()
+        } else {
+            idx.iter().map(|&i| k[i].clone()).collect()
+        }
+    };
+    let adversarial = rng.chance(1, 5);
+    let sorted = !adversarial || rng.chance(1, 2);
+    // a key sequence whose ordering columns are clustered: a list of runs of the sort key
+    let nruns = rng.range(1, 6) as usize;
+    let mut rows: Vec<Vec<V>> = vec![];
+    let mut used_sk: Vec<Vec<V>> = vec![];
+    for _ in 0..nruns {
+        // a fresh sort-key value
+        let mut skv: Vec<V>;
+        let mut tries = 0;
+        loop {
+            skv = (0..if full { ncols } else { idx.len() })
+                .map(|_| if rng.chance(1, 6) { V::Null } else { V::I(rng.range(0, 4)) })
+                .collect();
+            tries += 1;
+            if !used_sk.contains(&skv) || tries > 20 {
+                break;
+            }
+        }
+        if used_sk.contains(&skv) && sorted {
+            continue;
+        }
+        used_sk.push(skv.clone());
+        let len = rng.range(1, 5) as usize;
+        for _ in 0..len {
+            let mut k: Vec<V> = (0..ncols).map(|_| if rng.chance(1, 6) { V::Null } else { V::I(rng.range(0, 3)) }).collect();
+            if full {
+                k = skv.clone();
+            } else {
+                for (j, &i) in idx.iter().enumerate() {
+                    k[i] = skv[j].clone();
+                }
+            }
+            rows.push(k);
+        }
+    }
+    if !sorted {
+        // disturb the order
+        for _ in 0..rng.range(1, 3) {
+            if rows.len() >= 2 {
+                let a = rng.below(rows.len() as u64) as usize;
+                let b = rng.below(rows.len() as u64) as usize;
+                rows.swap(a, b);
+            }
+        }
+    }
+    // the ordered table's protocol
+    let mut ops: Vec<Op> = vec![];
+    let mut table: Vec<Vec<V>> = vec![]; // group keys, first-seen
+    let mut emitted: Vec<Vec<V>> = vec![];
+    let mut ord: GroupOrdering = if full {
+        GroupOrdering::Full(GroupOrderingFull::new())
+    } else {
+        GroupOrdering::Partial(GroupOrderingPartial::try_new(idx.clone()).unwrap())
+    };
+    let mut obs: Vec<String> = vec![];
+    let mut ok = true;
+    let mut why = String::new();
+    let mut pos = 0usize;
+    let mut done = false;
+    let mut panicked = false;
+    let mut steps = 0;
+    let apply = |ord: &mut GroupOrdering, op: &Op| -> Result<(i64, i64, i64, Vec<V>, i64), String> {
+        let r = catch_unwind(AssertUnwindSafe(|| {
+            let mut oom: Option<i64> = None;
+            match op {
+                Op::New(keys, gidx, total) => {
+                    let nc = keys.first().map(|k| k.len()).unwrap_or(1);
+                    let cols: Vec<ArrayRef> =
+                        (0..nc).map(|c| int_col(&keys.iter().map(|k| k[c].clone()).collect::<Vec<_>>())).collect();
+                    ord.new_groups(&cols, gidx, *total).map_err(|e| e.to_string())?;
+                }
+                Op::Emit => {}
+                Op::Remove(n) => ord.remove_groups(*n),
+                Op::Done => ord.input_done(),
+                Op::Reset => ord.reset(),
+                Op::Oom(n) => oom = Some(emit_code(ord.oom_emit_to(*n))),
+            }
+            let dbg = format!("{:?}", ord);
+            let (t, cs, cur, sk) = parse_state(&dbg);
+            let e = match oom {
+                Some(x) => x,
+                None => emit_code(ord.emit_to()),
+            };
+            Ok::<_, String>((t, cs, cur, sk, e))
+        }));
+        match r {
+            Ok(Ok(x)) => Ok(x),
+            Ok(Err(e)) => Err(format!("error: {}", e)),
+            Err(p) => Err(panic_msg(p)),
+        }
+    };
+    while steps < 40 && !panicked {
+        steps += 1;
+        // choose the next operation
+        let op: Op = if adversarial && rng.chance(1, 6) {
+            match rng.below(5) {
+                0 => Op::Remove(rng.range(0, 4) as usize),
+                1 => Op::Done,
+                2 => Op::Reset,
+                3 => Op::Oom(rng.range(0, 4) as usize),
+                _ => {
+                    let n = rng.range(1, 3) as usize;
+                    let keys: Vec<Vec<V>> = (0..n).map(|_| (0..ncols).map(|_| V::I(rng.range(0, 2))).collect()).collect();
+                    let gidx: Vec<usize> = (0..n).map(|_| rng.range(0, 5) as usize).collect();
+                    Op::New(keys, gidx, rng.range(0, 6) as usize)
+                }
+            }
+        } else if done {
+            if table.is_empty() {
+                break;
+            }
+            Op::Emit
+        } else if pos >= rows.len() {
+            Op::Done
+        } else {
+            match rng.below(10) {
+                0..=5 => {
+                    // next batch
+                    let n = rng.range(1, 4).min((rows.len() - pos) as i64) as usize;
+                    let batch: Vec<Vec<V>> = rows[pos..pos + n].to_vec();
+                    pos += n;
+                    let before = table.len();
+                    let mut gidx = vec![];
+                    for k in &batch {
+                        if sorted && emitted.contains(k) {
+                            ok = false;
+                            why = format!("row with key {} arrives after its group was emitted", rowj(k));
+                        }
+                        let g = match table.iter().position(|t| t == k) {
+                            Some(g) => g,
+                            None => {
+                                table.push(k.clone());
+                                table.len() - 1
+                            }
+                        };
+                        gidx.push(g);
+                    }
+                    if table.len() > before {
+                        Op::New(batch, gidx, table.len())
+                    } else {
+                        Op::Emit
+                    }
+                }
+                6..=8 => Op::Emit,
+                _ => Op::Oom(rng.range(0, 3) as usize),
+            }
+        };
+        match apply(&mut ord, &op) {
+            Err(msg) => {
+                obs.push("{\"panic\":true}".into());
+                ops.push(op);
+                panicked = true;
+                if !adversarial && sorted {
+                    ok = false;
+                    why = format!("panic on a protocol-following sorted history: {}", msg);
+                }
+            }
+            Ok((t, cs, cur, sk, e)) => {
+                obs.push(format!("{{\"tag\":{},\"cs\":{},\"cur\":{},\"sk\":{},\"emit\":{}}}", t, cs, cur, rowj(&sk), e));
+                if let Op::Done = op {
+                    done = true;
+                    if e != -2 {
+                        ok = false;
+                        why = "emit_to after input_done is not All".into();
+                    }
+                }
+                if let Op::Reset = op {
+                    table.clear();
+                    done = false;
+                }
+                let was_emit = matches!(op, Op::Emit | Op::Oom(_));
+                ops.push(op);
+                if was_emit && !table.is_empty() {
+                    // the table emits what emit_to allows (clamped by a batch size) and removes the groups
+                    let bs = rng.range(1, 4) as usize;
+                    if e >= 0 {
+                        let n = (e as usize).min(bs);
+                        if n > table.len() {
+                            ok = false;
+                            why = format!("emit_to First({}) exceeds the {} buffered groups", e, table.len());
+                        } else if n > 0 || adversarial {
+                            for k in table.drain(..n) {
+                                emitted.push(k);
+                            }
+                            let op2 = Op::Remove(n);
+                            match apply(&mut ord, &op2) {
+                                Err(msg) => {
+                                    obs.push("{\"panic\":true}".into());
+                                    panicked = true;
+                                    if !adversarial && sorted {
+                                        ok = false;
+                                        why = format!("remove_groups panicked: {}", msg);
+                                    }
+                                }
+                                Ok((t, cs, cur, sk, e)) => obs.push(format!(
+                                    "{{\"tag\":{},\"cs\":{},\"cur\":{},\"sk\":{},\"emit\":{}}}",
+                                    t,
+                                    cs,
+                                    cur,
+                                    rowj(&sk),
+                                    e
+                                )),
+                            }
+                            ops.push(op2);
+                        }
+                    } else if e == -2 {
+                        let n = bs.min(table.len());
+                        for k in table.drain(..n) {
+                            emitted.push(k);
+                        }
+                    }
+                }
+            }
+        }
+    }
+    println!(
+        "{{\"kind\":\"ord\",\"id\":{},\"full\":{},\"idx\":[{}],\"sorted\":{},\"adversarial\":{},\"ops\":[{}],\"obs\":[{}],\"ok\":{},\"why\":{}}}",
+        id,
+        full,
+        idx.iter().map(|x| x.to_string()).collect::<Vec<_>>().join(","),
+        sorted,
+        adversarial,
+        ops.iter().map(opj).collect::<Vec<_>>().join(","),
+        obs.join(","),
+        ok,
+        json_str(&why)
+    );
+}
+
+// ================================================================== AggregateExec
+#[derive(Clone, Copy, Debug, PartialEq)]
+enum KT {
+    I,
+    S,
+}
+const AGGS: [&str; 6] = ["count_star", "count", "sum", "min", "max", "avg"];
+
+fn gen_key(rng: &mut Rng, kt: KT, dom: i64) -> V {
+    if rng.chance(1, 6) {
+        return V::Null;
+    }
+    let c = rng.range(0, dom);
+    match kt {
+        KT::I => V::I(match c {
+            5 => i64::MAX,
+            6 => i64::MIN,
+            c => c - 1,
+        }),
+        KT::S => V::S(match c {
+            0 => "".to_string(),
+            1 => "a".to_string(),
+            2 => "b".to_string(),
+            3 => "ab".to_string(),
+            c => format!("long-common-prefix-{:04}", c),
+        }),
+    }
+}
+fn gen_val(rng: &mut Rng) -> V {
+    match rng.below(12) {
+        0 | 1 => V::Null,
+        2 => V::I(rng.range(-1_000_000_000_000, 1_000_000_000_000)),
+        _ => V::I(rng.range(-5, 20)),
+    }
+}
+
+type OrdSpec = Vec<(usize, bool, bool)>; // (column, descending, nulls_first)
+fn cmp_v(a: &V, b: &V, desc: bool, nf: bool) -> Ordering {
+    match (a, b) {
+        (V::Null, V::Null) => Ordering::Equal,
+        (V::Null, _) => {
+            if nf {
+                Ordering::Less
+            } else {
+                Ordering::Greater
+            }
+        }
+        (_, V::Null) => {
+            if nf {
+                Ordering::Greater
+            } else {
+                Ordering::Less
+            }
+        }
+        (a, b) => {
+            let o = match (a, b) {
+                (V::I(x), V::I(y)) => x.cmp(y),
+                (V::S(x), V::S(y)) => x.as_bytes().cmp(y.as_bytes()),
+                _ => Ordering::Equal,
+            };
+            if desc {
+                o.reverse()
+            } else {
+                o
+            }
+        }
+    }
+}
+fn sort_rows(rows: &mut Vec<(Vec<V>, V)>, spec: &OrdSpec) {
+    rows.sort_by(|a, b| {
+        for &(c, d, nf) in spec {
+            let o = cmp_v(&a.0[c], &b.0[c], d, nf);
+            if o != Ordering::Equal {
+                return o;
+            }
+        }
+        Ordering::Equal
+    });
+}
+
+fn schema_of(kts: &[KT]) -> SchemaRef {
+    let mut f: Vec<Field> = kts
+        .iter()
+        .enumerate()
+        .map(|(i, kt)| Field::new(format!("k{}", i), if *kt == KT::I { DataType::Int64 } else { DataType::Utf8 }, true))
+        .collect();
+    f.push(Field::new("v", DataType::Int64, true));
+    Arc::new(Schema::new(f))
+}
+fn batch_of(kts: &[KT], schema: &SchemaRef, rows: &[(Vec<V>, V)]) -> RecordBatch {
+    let mut cols: Vec<ArrayRef> = vec![];
+    for (i, kt) in kts.iter().enumerate() {
+        let c: Vec<V> = rows.iter().map(|r| r.0[i].clone()).collect();
+        cols.push(if *kt == KT::I { int_col(&c) } else { str_col(&c) });
+    }
+    cols.push(int_col(&rows.iter().map(|r| r.1.clone()).collect::<Vec<_>>()));
+    RecordBatch::try_new(Arc::clone(schema), cols).unwrap()
+}
+/// cut rows into batches of the given sizes (cyclic)
+fn cut(rows: &[(Vec<V>, V)], sizes: &[usize]) -> Vec<Vec<(Vec<V>, V)>> {
+    let mut out = vec![];
+    let mut i = 0;
+    let mut j = 0;
+    while i < rows.len() {
+        let n = sizes[j % sizes.len()].max(1).min(rows.len() - i);
+        out.push(rows[i..i + n].to_vec());
+        i += n;
+        j += 1;
+    }
+    out
+}
+
+fn agg_exprs(aggs: &[&str], schema: &SchemaRef) -> Vec<Arc<AggregateFunctionExpr>> {
+    aggs.iter()
+        .map(|a| {
+            let v = col("v", schema).unwrap();
+            let (udaf, args): (_, Vec<Arc<dyn PhysicalExpr>>) = match *a {
+                "count_star" => (count_udaf(), vec![lit(1i64)]),
+                "count" => (count_udaf(), vec![v]),
+                "sum" => (sum_udaf(), vec![v]),
+                "min" => (min_udaf(), vec![v]),
+                "max" => (max_udaf(), vec![v]),
+                _ => (avg_udaf(), vec![v]),
+            };
+            Arc::new(AggregateExprBuilder::new(udaf, args).schema(Arc::clone(schema)).alias(format!("{}_v", a)).build().unwrap())
+        })
+        .collect()
+}
+
+#[derive(Clone, Debug)]
+struct Cfg {
+    mode: &'static str,
+    nparts: usize,
+    sizes: Vec<usize>,
+    batch_size: usize,
+    mem: Option<usize>,
+    skip: Option<(usize, f64)>,
+    migr: bool,
+    order: OrdSpec,
+}
+fn cfgj(c: &Cfg) -> String {
+    format!(
+        "{{\"mode\":\"{}\",\"nparts\":{},\"sizes\":[{}],\"batch_size\":{},\"mem\":{},\"skip\":{},\"migr\":{},\"order\":[{}]}}",
+        c.mode,
+        c.nparts,
+        c.sizes.iter().map(|x| x.to_string()).collect::<Vec<_>>().join(","),
+        c.batch_size,
+        c.mem.map(|m| m.to_string()).unwrap_or("null".into()),
+        c.skip.map(|(r, t)| format!("[{},{}]", r, t)).unwrap_or("null".into()),
+        c.migr,
+        c.order.iter().map(|(c, d, n)| format!("[{},{},{}]", c, d, n)).collect::<Vec<_>>().join(",")
+    )
+}
+fn task_ctx(c: &Cfg) -> Arc<TaskContext> {
+    let mut sc = SessionConfig::new()
+        .with_batch_size(c.batch_size)
+        .set_bool("datafusion.execution.enable_migration_aggregate", c.migr);
+    if let Some((rows, ratio)) = c.skip {
+        sc = sc
+            .set("datafusion.execution.skip_partial_aggregation_probe_rows_threshold", &ScalarValue::UInt64(Some(rows as u64)))
+            .set("datafusion.execution.skip_partial_aggregation_probe_ratio_threshold", &ScalarValue::Float64(Some(ratio)));
+    }
+    let mut rb = RuntimeEnvBuilder::new();
+    if let Some(m) = c.mem {
+        rb = rb.with_memory_pool(Arc::new(FairSpillPool::new(m)));
+    }
+    Arc::new(TaskContext::default().with_session_config(sc).with_runtime(rb.build_arc().unwrap()))
+}
+
+fn lex(schema: &SchemaRef, spec: &OrdSpec) -> Option<LexOrdering> {
+    LexOrdering::new(spec.iter().map(|&(c, d, nf)| {
+        PhysicalSortExpr::new(
+            Arc::new(Column::new(schema.field(c).name(), c)) as Arc<dyn PhysicalExpr>,
+            SortOptions { descending: d, nulls_first: nf },
+        )
+    }))
+}
+fn key_hash(k: &[V]) -> u64 {
+    let mut h: u64 = 1469598103934665603;
+    for v in k {
+        let s = vj(v);
+        for b in s.bytes() {
+            h = (h ^ b as u64).wrapping_mul(1099511628211);
+        }
+        h = h.wrapping_mul(31).wrapping_add(7);
+    }
+    h
+}
+
+struct RunOut {
+    rows: Result<Vec<Vec<V>>, String>,
+    batches: Vec<Vec<Vec<V>>>,
+    iom: String,
+    spills: usize,
+    skipped: usize,
+    panic: bool,
+}
+
+/// decode an output batch: group columns (Int64 / Utf8 / unsigned grouping id), then the aggregates
+fn decode(b: &RecordBatch) -> Result<Vec<Vec<V>>, String> {
+    let mut rows: Vec<Vec<V>> = vec![vec![]; b.num_rows()];
+    for c in 0..b.num_columns() {
+        let a = b.column(c);
+        for r in 0..b.num_rows() {
+            let v = if a.is_null(r) {
+                V::Null
+            } else {
+                match a.data_type() {
+                    DataType::Int64 => V::I(a.as_any().downcast_ref::<Int64Array>().unwrap().value(r)),
+                    DataType::Utf8 => V::S(a.as_any().downcast_ref::<StringArray>().unwrap().value(r).to_string()),
+                    DataType::UInt8 | DataType::UInt16 | DataType::UInt32 | DataType::UInt64 => {
+                        let s = ScalarValue::try_from_array(a, r).map_err(|e| e.to_string())?;
+                        V::I(s.to_string().parse::<i64>().map_err(|e| format!("gid {}: {}", s, e))?)
+                    }
+                    DataType::Float64 => {
+                        let f = a.as_any().downcast_ref::<Float64Array>().unwrap().value(r);
+                        // avg: recover the exact reduced fraction (the float must be the correctly rounded quotient)
+                        let mut found = None;
+                        for d in 1..=4096i64 {
+                            let n = (f * d as f64).round();
+                            if n.abs() < 9.0e15 && (n / d as f64).to_bits() == f.to_bits() {
+                                found = Some((n as i64, d));
+                                break;
+                            }
+                        }
+                        match found {
+                            Some((n, d)) => V::S(format!("{}/{}", n, d)),
+                            None => V::S(format!("float:{:?}", f)),
+                        }
+                    }
+                    t => return Err(format!("unexpected output type {:?}", t)),
+                }
+            };
+            rows[r].push(v);
+        }
+    }
+    Ok(rows)
+}
+
+#[allow(clippy::too_many_arguments)]
+fn run_agg(
+    rt: &tokio::runtime::Runtime,
+    kts: &[KT],
+    aggs: &[&str],
+    sets: &[Vec<bool>],
+    rows: &[(Vec<V>, V)],
+    c: &Cfg,
+) -> RunOut {
+    let schema = schema_of(kts);
+    let nk = kts.len();
+    let r = catch_unwind(AssertUnwindSafe(|| -> Result<(Vec<RecordBatch>, String, usize, usize), String> {
+        // partition the rows
+        let mut parts: Vec<Vec<(Vec<V>, V)>> = vec![vec![]; c.nparts];
+        for (i, r) in rows.iter().enumerate() {
+            let p = if c.mode == "single_partitioned" { (key_hash(&r.0) % c.nparts as u64) as usize } else { i % c.nparts };
+            parts[p].push(r.clone());
+        }
+        for p in parts.iter_mut() {
+            if !c.order.is_empty() {
+                sort_rows(p, &c.order);
+            }
+        }
+        let pb: Vec<Vec<RecordBatch>> =
+            parts.iter().map(|p| cut(p, &c.sizes).iter().map(|b| batch_of(kts, &schema, b)).collect()).collect();
+        let mut mem = TestMemoryExec::try_new(&pb, Arc::clone(&schema), None).map_err(|e| e.to_string())?;
+        let ordering = lex(&schema, &c.order);
+        if let Some(o) = &ordering {
+            mem = mem.try_with_sort_information(vec![o.clone()]).map_err(|e| e.to_string())?;
+        }
+        let input: Arc<dyn ExecutionPlan> = Arc::new(TestMemoryExec::update_cache(&Arc::new(mem)));
+        let gexprs: Vec<(Arc<dyn PhysicalExpr>, String)> =
+            (0..nk).map(|i| (col(&format!("k{}", i), &schema).unwrap(), format!("k{}", i))).collect();
+        let group_by = if sets.is_empty() {
+            PhysicalGroupBy::new_single(gexprs)
+        } else {
+            let nulls: Vec<(Arc<dyn PhysicalExpr>, String)> = (0..nk)
+                .map(|i| {
+                    let sv = if kts[i] == KT::I { ScalarValue::Int64(None) } else { ScalarValue::Utf8(None) };
+                    (lit(sv), format!("k{}", i))
+                })
+                .collect();
+            PhysicalGroupBy::new(gexprs, nulls, sets.to_vec(), true)
+        };
+        let aggr = agg_exprs(aggs, &schema);
+        let filt = vec![None; aggr.len()];
+        let mk = |mode: AggregateMode, gb: PhysicalGroupBy, inp: Arc<dyn ExecutionPlan>| -> Result<Arc<AggregateExec>, String> {
+            AggregateExec::try_new(mode, gb, aggr.clone(), filt.clone(), inp, Arc::clone(&schema))
+                .map(Arc::new)
+                .map_err(|e| e.to_string())
+        };
+        let single_input = |inp: Arc<dyn ExecutionPlan>| -> Arc<dyn ExecutionPlan> {
+            if c.nparts == 1 {
+                inp
+            } else if let Some(o) = &ordering {
+                Arc::new(SortPreservingMergeExec::new(o.clone(), inp))
+            } else {
+                Arc::new(CoalescePartitionsExec::new(inp))
+            }
+        };
+        let mut watch: Vec<Arc<AggregateExec>> = vec![];
+        let plan: Arc<dyn ExecutionPlan> = match c.mode {
+            "single" => {
+                let a = mk(AggregateMode::Single, group_by.clone(), single_input(input))?;
+                watch.push(Arc::clone(&a));
+                a
+            }
+            "single_partitioned" => {
+                let a = mk(AggregateMode::SinglePartitioned, group_by.clone(), input)?;
+                watch.push(Arc::clone(&a));
+                a
+            }
+            "single_repartitioned" => {
+                let hexprs: Vec<Arc<dyn PhysicalExpr>> = (0..nk).map(|i| col(&format!("k{}", i), &schema).unwrap()).collect();
+                let rp = Arc::new(
+                    RepartitionExec::try_new(input, Partitioning::Hash(hexprs, c.nparts.max(2))).map_err(|e| e.to_string())?,
+                );
+                let a = mk(AggregateMode::SinglePartitioned, group_by.clone(), rp)?;
+                watch.push(Arc::clone(&a));
+                a
+            }
+            m => {
+                let partial = mk(AggregateMode::Partial, group_by.clone(), input)?;
+                watch.push(Arc::clone(&partial));
+                let pschema = partial.schema();
+                let fin_gb = group_by.as_final();
+                let ngb = pschema.fields().len() - partial.aggr_expr().iter().map(|a| a.state_fields().map(|f| f.len()).unwrap_or(1)).sum::<usize>();
+                match m {
+                    "partial_final" => {
+                        let mid: Arc<dyn ExecutionPlan> = Arc::new(CoalescePartitionsExec::new(partial));
+                        let a = mk(AggregateMode::Final, fin_gb, mid)?;
+                        watch.push(Arc::clone(&a));
+                        a
+                    }
+                    "partial_spm_final" => {
+                        // the partial stage keeps the order of the ordering columns: merge its partitions on them
+                        let spec: OrdSpec = c.order.clone();
+                        let mid: Arc<dyn ExecutionPlan> = match lex(&pschema, &spec) {
+                            Some(o) if c.nparts > 1 => Arc::new(SortPreservingMergeExec::new(o, partial)),
+                            _ => Arc::new(CoalescePartitionsExec::new(partial)),
+                        };
+                        let a = mk(AggregateMode::Final, fin_gb, mid)?;
+                        watch.push(Arc::clone(&a));
+                        a
+                    }
+                    _ => {
+                        let hexprs: Vec<Arc<dyn PhysicalExpr>> =
+                            (0..ngb).map(|i| Arc::new(Column::new(pschema.field(i).name(), i)) as Arc<dyn PhysicalExpr>).collect();
+                        let rp = Arc::new(
+                            RepartitionExec::try_new(partial, Partitioning::Hash(hexprs, c.nparts.max(2))).map_err(|e| e.to_string())?,
+                        );
+                        let a = mk(AggregateMode::FinalPartitioned, fin_gb, rp)?;
+                        watch.push(Arc::clone(&a));
+                        a
+                    }
+                }
+            }
+        };
+        let iom = watch
+            .iter()
+            .map(|a| match a.input_order_mode() {
+                InputOrderMode::Linear => "Linear".to_string(),
+                InputOrderMode::Sorted => "Sorted".to_string(),
+                InputOrderMode::PartiallySorted(ix) => format!("Partial{:?}", ix),
+            })
+            .collect::<Vec<_>>()
+            .join("+");
+        let tc = task_ctx(c);
+        let p2 = Arc::clone(&plan);
+        let out = rt
+            .block_on(async move { tokio::time::timeout(std::time::Duration::from_secs(60), collect(p2, tc)).await })
+            .map_err(|_| "timeout".to_string())?
+            .map_err(|e| e.to_string())?;
+        let mut spills = 0;
+        let mut skipped = 0;
+        for a in &watch {
+            if let Some(m) = a.metrics() {
+                spills += m.spill_count().unwrap_or(0);
+                skipped += m.sum_by_name("skipped_aggregation_rows").map(|v| v.as_usize()).unwrap_or(0);
+            }
+        }
+        Ok((out, iom, spills, skipped))
+    }));
+    match r {
+        Err(p) => RunOut { rows: Err(format!("panic: {}", panic_msg(p))), batches: vec![], iom: String::new(), spills: 0, skipped: 0, panic: true },
+        Ok(Err(e)) => RunOut { rows: Err(e), batches: vec![], iom: String::new(), spills: 0, skipped: 0, panic: false },
+        Ok(Ok((bs, iom, spills, skipped))) => {
+            let mut all = vec![];
+            let mut per = vec![];
+            let mut err = None;
+            for b in &bs {
+                match decode(b) {
+                    Ok(rs) => {
+                        all.extend(rs.clone());
+                        per.push(rs);
+                    }
+                    Err(e) => err = Some(e),
+                }
+            }
+            RunOut { rows: if let Some(e) = err { Err(e) } else { Ok(all) }, batches: per, iom, spills, skipped, panic: false }
+        }
+    }
+}
+
+// ---- the definition, computed here
+fn gcd(a: i128, b: i128) -> i128 {
+    if b == 0 {
+        a.abs()
+    } else {
+        gcd(b, a % b)
+    }
+}
+fn agg_def(a: &str, vs: &[V]) -> V {
+    let xs: Vec<i64> = vs.iter().filter_map(|v| if let V::I(i) = v { Some(*i) } else { None }).collect();
+    match a {
+        "count_star" => V::I(vs.len() as i64),
+        "count" => V::I(xs.len() as i64),
+        "sum" => {
+            if xs.is_empty() {
+                V::Null
+            } else {
+                V::I(xs.iter().sum())
+            }
+        }
+        "min" => xs.iter().min().map(|x| V::I(*x)).unwrap_or(V::Null),
+        "max" => xs.iter().max().map(|x| V::I(*x)).unwrap_or(V::Null),
+        _ => {
+            if xs.is_empty() {
+                V::Null
+            } else {
+                let s: i128 = xs.iter().map(|x| *x as i128).sum();
+                let n = xs.len() as i128;
+                let g = gcd(s, n).max(1);
+                V::S(format!("{}/{}", s / g, n / g))
+            }
+        }
+    }
+}
+fn definition(aggs: &[&str], sets: &[Vec<bool>], rows: &[(Vec<V>, V)]) -> Vec<Vec<V>> {
+    let mut out = vec![];
+    let passes: Vec<(Vec<bool>, i64)> = if sets.is_empty() {
+        vec![(vec![], -1)]
+    } else {
+        let n = sets[0].len();
+        sets.iter()
+            .enumerate()
+            .map(|(i, m)| {
+                let ordinal = sets[..i].iter().filter(|x| *x == m).count() as i64;
+                let sem = m.iter().fold(0i64, |acc, b| (acc << 1) | (*b as i64));
+                (m.clone(), sem | (ordinal << n))
+            })
+            .collect()
+    };
+    for (mask, gid) in passes {
+        let mut groups: BTreeMap<Vec<V>, Vec<V>> = BTreeMap::new();
+        for (k, v) in rows {
+            let mut kk: Vec<V> =
+                k.iter().enumerate().map(|(i, x)| if !mask.is_empty() && mask[i] { V::Null } else { x.clone() }).collect();
+            if gid >= 0 {
+                kk.push(V::I(gid));
+            }
+            groups.entry(kk).or_default().push(v.clone());
+        }
+        for (k, vs) in groups {
+            let mut r = k.clone();
+            for a in aggs {
+                r.push(agg_def(a, &vs));
+            }
+            out.push(r);
+        }
+    }
+    out
+}
+fn bag_eq(a: &[Vec<V>], b: &[Vec<V>]) -> bool {
+    let mut x = a.to_vec();
+    let mut y = b.to_vec();
+    x.sort();
+    y.sort();
+    x == y
+}
+
+fn gen_rows(rng: &mut Rng, kts: &[KT]) -> Vec<(Vec<V>, V)> {
+    let n = match rng.below(10) {
+        0 => 0,
+        1 => 1,
+        2..=6 => rng.range(2, 12) as usize,
+        _ => rng.range(12, 40) as usize,
+    };
+    let dom = rng.range(1, 6);
+    (0..n).map(|_| (kts.iter().map(|kt| gen_key(rng, *kt, dom)).collect(), gen_val(rng))).collect()
+}
+fn gen_kts(rng: &mut Rng) -> Vec<KT> {
+    match rng.below(6) {
+        0 => vec![KT::I],
+        1 => vec![KT::S],
+        2 => vec![KT::I, KT::S],
+        3 => vec![KT::S, KT::I],
+        4 => vec![KT::I, KT::I],
+        _ => vec![KT::I, KT::S, KT::I],
+    }
+}
+fn gen_aggs(rng: &mut Rng) -> Vec<&'static str> {
+    let mut v: Vec<&'static str> = AGGS.iter().copied().filter(|_| rng.chance(1, 2)).collect();
+    if v.is_empty() {
+        v.push(*rng.pick(&AGGS));
+    }
+    v
+}
+fn gen_order(rng: &mut Rng, nk: usize) -> OrdSpec {
+    if rng.chance(1, 4) {
+        return vec![];
+    }
+    let mut cols: Vec<usize> = (0..nk).collect();
+    let n = rng.range(1, nk as i64) as usize;
+    let mut o = vec![];
+    for _ in 0..n {
+        let j = rng.below(cols.len() as u64) as usize;
+        o.push((cols.remove(j), rng.chance(1, 3), rng.chance(1, 2)));
+    }
+    o
+}
+fn gen_cfg(rng: &mut Rng, nk: usize, has_sets: bool) -> Cfg {
+    let modes = ["single", "single_partitioned", "single_repartitioned", "partial_final", "partial_spm_final", "partial_repart_finalpart"];
+    let mode: &'static str = *rng.pick(&modes);
+    let nparts = if mode == "single_partitioned" { rng.range(2, 3) as usize } else { rng.range(1, 3) as usize };
+    let sizes: Vec<usize> = (0..rng.range(1, 3)).map(|_| rng.range(1, 6) as usize).collect();
+    let batch_size = *rng.pick(&[1usize, 2, 3, 4, 8, 8192]);
+    let mem = if rng.chance(1, 3) { Some(*rng.pick(&[600usize, 1200, 2000, 3000, 5000, 9000, 20000])) } else { None };
+    let skip = if rng.chance(1, 3) { Some((rng.range(1, 6) as usize, *rng.pick(&[0.0f64, 0.2, 0.5, 0.9]))) } else { None };
+    let order = if has_sets && rng.chance(1, 2) { vec![] } else { gen_order(rng, nk) };
+    Cfg { mode, nparts, sizes, batch_size, mem, skip, migr: rng.chance(3, 4), order }
+}
+
+fn agg_case_with(rt: &tokio::runtime::Runtime, id: u64, kts: &[KT], aggs: &[&str], sets: &[Vec<bool>], rows: &[(Vec<V>, V)], cfgs: &[Cfg], tag: &str) {
+    let def = definition(aggs, sets, rows);
+    let mut ok = true;
+    let mut runs = vec![];
+    for c in cfgs {
+        let o = run_agg(rt, kts, aggs, sets, rows, c);
+        let body = match &o.rows {
+            Ok(rs) => {
+                let good = bag_eq(rs, &def);
+                if !good {
+                    ok = false;
+                }
+                format!("\"rows\":{},\"good\":{}", rowsj(rs), good)
+            }
+            Err(e) => {
+                // running out of the memory budget is an accepted outcome (no result); anything else is not
+                let benign = !o.panic && (e.contains("Resources exhausted") || e.contains("ResourcesExhausted"));
+                if !benign {
+                    ok = false;
+                }
+                format!("\"err\":{},\"benign\":{}", json_str(&e.chars().take(300).collect::<String>()), benign)
+            }
+        };
+        runs.push(format!(
+            "{{\"cfg\":{},\"iom\":{},\"spills\":{},\"skipped\":{},{}}}",
+            cfgj(c),
+            json_str(&o.iom),
+            o.spills,
+            o.skipped,
+            body
+        ));
+    }
+    println!(
+        "{{\"kind\":\"agg\",\"id\":{},\"tag\":{},\"ktypes\":[{}],\"aggs\":[{}],\"sets\":[{}],\"keys\":{},\"vals\":{},\"runs\":[{}],\"ok\":{}}}",
+        id,
+        json_str(tag),
+        kts.iter().map(|k| if *k == KT::I { "\"i\"" } else { "\"s\"" }).collect::<Vec<_>>().join(","),
+        aggs.iter().map(|a| json_str(a)).collect::<Vec<_>>().join(","),
+        sets.iter().map(|m| format!("[{}]", m.iter().map(|b| b.to_string()).collect::<Vec<_>>().join(","))).collect::<Vec<_>>().join(","),
+        rowsj(&rows.iter().map(|r| r.0.clone()).collect::<Vec<_>>()),
+        rowj(&rows.iter().map(|r| r.1.clone()).collect::<Vec<_>>()),
+        runs.join(","),
+        ok
+    );
+}
+
+fn agg_case(rng: &mut Rng, rt: &tokio::runtime::Runtime, id: u64) {
+    let kts = gen_kts(rng);
+    let aggs = gen_aggs(rng);
+    let rows = gen_rows(rng, &kts);
+    let nk = kts.len();
+    let sets: Vec<Vec<bool>> = if rng.chance(1, 5) {
+        match rng.below(3) {
+            0 => (0..=nk).map(|i| (0..nk).map(|j| j >= nk - i).collect()).collect(), // ROLLUP
+            1 => (0..(1usize << nk)).map(|m| (0..nk).map(|j| (m >> j) & 1 == 1).collect()).collect(), // CUBE
+            _ => (0..rng.range(1, 4)).map(|_| (0..nk).map(|_| rng.chance(1, 2)).collect()).collect(), // arbitrary, repeats possible
+        }
+    } else {
+        vec![]
+    };
+    let k = rng.range(2, 4) as usize;
+    let cfgs: Vec<Cfg> = (0..k).map(|_| gen_cfg(rng, nk, !sets.is_empty())).collect();
+    agg_case_with(rt, id, &kts, &aggs, &sets, &rows, &cfgs, "gen");
+}
+
+// ================================================================== stream "stream"
+fn stream_case(rng: &mut Rng, rt: &tokio::runtime::Runtime, id: u64) {
+    let kts: Vec<KT> = match rng.below(4) {
+        0 => vec![KT::I],
+        1 => vec![KT::I, KT::I],
+        2 => vec![KT::I, KT::S],
+        _ => vec![KT::I, KT::I, KT::I],
+    };
+    let nk = kts.len();
+    let aggs = gen_aggs(rng);
+    let mut rows = gen_rows(rng, &kts);
+    let mut order = gen_order(rng, nk);
+    if order.is_empty() {
+        order.push((0, false, false));
+    }
+    sort_rows(&mut rows, &order);
+    let sizes: Vec<usize> = (0..rng.range(1, 3)).map(|_| rng.range(1, 5) as usize).collect();
+    let c = Cfg {
+        mode: "single",
+        nparts: 1,
+        sizes: sizes.clone(),
+        batch_size: *rng.pick(&[1usize, 2, 3, 8192]),
+        mem: None,
+        skip: None,
+        migr: !rng.chance(1, 4),
+        order: order.clone(),
+    };
+    let o = run_agg(rt, &kts, &aggs, &[], &rows, &c);
+    let def = definition(&aggs, &[], &rows);
+    let full = order.len() == nk;
+    let idx: Vec<usize> = order.iter().map(|x| x.0).collect();
+    let batches = cut(&rows, &sizes);
+    let (ok, obs) = match &o.rows {
+        Ok(rs) => {
+            // direct oracle: the union of the output batches is the definition, and no group key is output twice
+            let mut keys: Vec<Vec<V>> = rs.iter().map(|r| r[..nk].to_vec()).collect();
+            keys.sort();
+            let n0 = keys.len();
+            keys.dedup();
+            (bag_eq(rs, &def) && keys.len() == n0, format!("[{}]", o.batches.iter().map(|b| rowsj(b)).collect::<Vec<_>>().join(",")))
+        }
+        Err(e) => (false, format!("{{\"err\":{}}}", json_str(e))),
+    };
+    println!(
+        "{{\"kind\":\"stream\",\"id\":{},\"ktypes\":[{}],\"aggs\":[{}],\"full\":{},\"idx\":[{}],\"bs\":{},\"migr\":{},\"iom\":{},\"batches\":[{}],\"obs\":{},\"ok\":{}}}",
+        id,
+        kts.iter().map(|k| if *k == KT::I { "\"i\"" } else { "\"s\"" }).collect::<Vec<_>>().join(","),
+        aggs.iter().map(|a| json_str(a)).collect::<Vec<_>>().join(","),
+        full,
+        idx.iter().map(|x| x.to_string()).collect::<Vec<_>>().join(","),
+        c.batch_size,
+        c.migr,
+        json_str(&o.iom),
+        batches
+            .iter()
+            .map(|b| format!("[{}]", b.iter().map(|(k, v)| format!("[{},{}]", rowj(k), vj(v))).collect::<Vec<_>>().join(",")))
+            .collect::<Vec<_>>()
+            .join(","),
+        obs,
+        ok
+    );
+}
+
+fn main() {
+    let args: Vec<String> = std::env::args().collect();
+    let seed: u64 = arg(&args, "--seed", "1").parse().unwrap();
+    let n: u64 = arg(&args, "--n", "100").parse().unwrap();
+    let only = arg(&args, "--only", "");
+    std::panic::set_hook(Box::new(|_| {}));
+    let rt = tokio::runtime::Builder::new_multi_thread().worker_threads(2).enable_all().build().unwrap();
+    let mut rng = Rng::new(seed);
+    for id in 0..n {
+        let which = id % 10;
+        if which < 5 {
+            if only.is_empty() || only == "ord" {
+                ord_case(&mut rng, id);
+            } else {
+                rng.next();
+            }
+        } else if which < 8 {
+            if only.is_empty() || only == "agg" {
+                agg_case(&mut rng, &rt, id);
+            } else {
+                rng.next();
+            }
+        } else if only.is_empty() || only == "stream" {
+            stream_case(&mut rng, &rt, id);
+        } else {
+            rng.next();
+        }
+    }
+}
